@@ -277,6 +277,68 @@ def frames_nt(ctx, fr, used, d, mark=True):
         ctx.nontrivial(distinct and axes_nonparallel(*ts) and nrm(d) > 0)
 
 
+def c_frame_history(case, ctx):
+    """Frame changes inside an ordinary history of the same objects: a component written between two changes, the
+    caller naming the frame the numbers are in on the way back, and frame objects shared between two objects and
+    moved in place between their changes.  Every change is the oracle's for the numbers and poses AT THE TIME of
+    the call."""
+    fr, kind, d, mode = case["fr"], case["kind"], case["d"], case["mode"]
+    ctx.label(kind)
+    ctx.label("history=" + mode)
+    bud = Budget(ctx, [fr["A"], fr["B"], fr["C"]])
+    frames_nt(ctx, fr, ["A", "B", "C"], d)
+    hopAB, hopBA, hopAC, hopCA = bud.hop(0, 1), bud.hop(1, 0), bud.hop(0, 2), bud.hop(2, 0)
+    nAB, nAC = bud.nskip([0, 1]), bud.nskip([0, 2])      # hops between frames equal to 1e-8 may be skipped (documented)
+    if mode == "edit_between":
+        x = mk(kind, d, fr["A"], case["dshape"])
+        sut(x.changeFrame, mk_tm(fr["B"]))
+        dB = move(kind, d, fr["A"], fr["B"])
+        close(val(x, "A->B"), dB, bud.tol(nrm(d) * hopAB, nAB), "%s A->B vs oracle" % kind)
+        i, v = int(case["i"]), float(case["v"])
+        sut(x.__setitem__, i, v)
+        dB2 = dB.copy()
+        dB2[i] = v
+        sut(x.changeFrame, mk_tm(fr["A"]))
+        scale = max(nrm(dB2), nrm(d) * hopAB) * hopBA
+        close(val(x, "A->B, x[%d]=%g, ->A" % (i, v)), move(kind, dB2, fr["B"], fr["A"]), bud.tol(scale, 2 * nAB),
+              "%s A->B, component %d written, ->A vs oracle of the edited numbers" % (kind, i))
+        check_frame(x, fr["A"], "A->B, edit, ->A", 2 * nAB)
+    elif mode == "explicit_old_back":
+        x = mk(kind, d, fr["A"], case["dshape"])
+        sut(x.changeFrame, mk_tm(fr["B"]))
+        dB = move(kind, d, fr["A"], fr["B"])
+        # the caller now states that the numbers are in C (explicit old frame) and asks for A
+        sut(x.changeFrame, mk_tm(fr["A"]), mk_tm(fr["C"]))
+        scale = nrm(d) * hopAB * hopCA
+        close(val(x, "A->B then changeFrame(A, old=C)"), move(kind, dB, fr["C"], fr["A"]), bud.tol(scale, nAB + nAC),
+              "%s A->B, then changeFrame(A, C) with the old frame named by the caller vs oracle C->A" % kind)
+        check_frame(x, fr["A"], "A->B then changeFrame(A, C)", nAB + nAC)
+    else:  # shared_frames
+        d2 = case["d2"]
+        fA = mk_tm(fr["A"])
+        fT = mk_tm(fr["C"])
+        l = L()
+        dd = lambda v: np.array(v, dtype=float).reshape((6, 1) if case["dshape"] == "61" else (6,))
+        if kind == "wrench":
+            x1, x2 = sut(l.Wrench, dd(d), None, fA), sut(l.Wrench, dd(d2), None, fA)
+        elif kind == "twist":
+            x1, x2 = sut(l.Twist, dd(d), fA), sut(l.Twist, dd(d2), fA)
+        else:
+            x1, x2 = sut(l.Screw, dd(d), fA), sut(l.Screw, dd(d2), fA)
+        sut(x1.changeFrame, fT)
+        close(val(x1, "first object A->T"), move(kind, d, fr["A"], fr["C"]), bud.tol(nrm(d) * hopAC, nAC),
+              "%s first object A->T (T at C) vs oracle" % kind)
+        for k in range(6):                       # the target frame object is moved in place, component by component
+            sut(fT.__setitem__, k, float(fr["B"][k]))
+        got = np.asarray(sut(fT.gTAA), dtype=float).reshape(-1)
+        if not np.array_equal(got, np.asarray(fr["B"], dtype=float)):
+            ctx.skip("the frame object does not read back the written pose (C03's subject)")
+        sut(x2.changeFrame, fT)
+        close(val(x2, "second object A->T"), move(kind, d2, fr["A"], fr["B"]), bud.tol(nrm(d2) * hopAB, nAB),
+              "%s second object (same frame objects; T moved in place to B in between) A->T vs oracle A->B" % kind)
+        check_frame(x2, fr["B"], "second object A->T", nAB)
+
+
 # ------------------------------------------------------------------------------------ frame clauses
 
 def c_frame_oracle(case, ctx):
@@ -979,6 +1041,17 @@ S_ROUNDTRIP = _frame_case(vias=st.lists(VIAS, min_size=1, max_size=3), short=st.
 S_COMPOSITION = _frame_case(vias=st.lists(VIAS, min_size=1, max_size=2))
 S_RECORDED = _frame_case(vias=st.lists(VIAS, min_size=1, max_size=3),
                          walk=st.lists(st.sampled_from(["A", "B", "C"]), min_size=1, max_size=5))
+@st.composite
+def _plain_triples(draw):
+    A = draw(_PLAIN10)
+    B = _separate(draw(_PLAIN10), [A], 0)
+    return {"A": A, "B": B, "C": _separate(draw(_PLAIN10), [A, B], 1)}
+
+
+S_HISTORY = st.fixed_dictionaries({
+    "kind": KINDS, "dshape": DSHAPE, "fr": st.one_of(_plain_triples(), frame_triples()), "d": six_vectors(), "d2": six_vectors(),
+    "mode": st.sampled_from(["edit_between", "explicit_old_back", "shared_frames", "shared_frames"]),
+    "i": st.integers(0, 5), "v": st.one_of(G.floats(-10.0, 10.0), st.sampled_from([0.0, 1.0, -2.5]))})
 S_EXPLICIT = _frame_case(via=st.sampled_from(["method_old", "fsr"]), recorded=st.sampled_from(["identity", "C"]))
 S_PAIRING = st.fixed_dictionaries({
     "fr": frame_triples(), "F": _SIX_FULL, "V": _SIX_FULL, "dshape": DSHAPE,
@@ -1023,6 +1096,7 @@ CLAUSES = [
     Clause("frame_composition", c_frame_composition, S_COMPOSITION, 1000, 8000),
     Clause("frame_recorded_is_target", c_frame_recorded, S_RECORDED, 1000, 8000),
     Clause("explicit_old_frame", c_explicit_old, S_EXPLICIT, 800, 6000),
+    Clause("frame_change_in_object_history", c_frame_history, S_HISTORY, 1200, 8000),
     Clause("pairing_invariant", c_pairing, S_PAIRING, 1000, 8000),
     Clause("force_at_point", c_force_at_point, _force_case(), 1000, 8000),
     Clause("cross_frame_sum", c_cross_frame_sum,
